@@ -549,6 +549,66 @@ func (g *Gen) definedOutside(li *loopInfo, v ssa.Value) bool {
 // scanLoop determines which heap kinds the loop body may write and guesses the
 // loop-invariant written locations (checked later at the back edges).
 func (g *Gen) scanLoop(li *loopInfo, st *State) {
+	// pass 1 determines the written kinds, pass 2 the loop-invariant written locations (which
+	// may be reached through loads from kinds that pass 1 found to be unwritten)
+	g.scanLoopPass(li, st, 1)
+	li.kindSet = map[string]bool{}
+	for _, k := range li.kinds {
+		li.kindSet[k] = true
+	}
+	li.kinds = nil
+	li.sLocs = map[string][]string{}
+	li.sWins = nil
+	g.scanLoopPass(li, st, 2)
+}
+
+// headEval gives the value of v at the loop head when v is loop invariant: defined outside the
+// loop, or computed inside it only from loop-invariant values and loads of unwritten heap kinds.
+func (g *Gen) headEval(li *loopInfo, st *State, v ssa.Value) (Val, bool) {
+	if g.definedOutside(li, v) {
+		x, ok := g.valOpt(v)
+		return x, ok
+	}
+	if li.kindSet == nil {
+		return Val{}, false
+	}
+	switch x := v.(type) {
+	case *ssa.FieldAddr:
+		b, ok := g.headEval(li, st, x.X)
+		if !ok {
+			return Val{}, false
+		}
+		st0 := x.X.Type().Underlying().(*types.Pointer).Elem()
+		return Val{T: fmt.Sprintf("(fld %s %d)", b.T, g.u.fieldID(st0, x.Field)), Sort: "Loc", GoT: x.Type()}, true
+	case *ssa.UnOp:
+		if x.Op != token.MUL {
+			return Val{}, false
+		}
+		p, ok := g.headEval(li, st, x.X)
+		if !ok {
+			return Val{}, false
+		}
+		written := false
+		g.cellKinds(x.Type(), func(k string) {
+			if li.kindSet[k] {
+				written = true
+			}
+		})
+		if _, isStruct := x.Type().Underlying().(*types.Struct); isStruct || written {
+			return Val{}, false
+		}
+		return Val{T: g.loadTypeH(st, p.T, x.Type(), g.addrHint(x.X)), Sort: g.u.sortOf(x.Type()), GoT: x.Type()}, true
+	case *ssa.ChangeType:
+		return g.headEval(li, st, x.X)
+	case *ssa.Convert:
+		if g.u.sortOf(x.Type()) == "Loc" && g.u.sortOf(x.X.Type()) == "Loc" {
+			return g.headEval(li, st, x.X)
+		}
+	}
+	return Val{}, false
+}
+
+func (g *Gen) scanLoopPass(li *loopInfo, st *State, pass int) {
 	kinds := map[string]bool{}
 	addLoc := func(k, loc string) {
 		for _, s := range li.sLocs[k] {
@@ -605,8 +665,8 @@ func (g *Gen) scanLoop(li *loopInfo, st *State) {
 					continue // writes to an object that is created and dies within one iteration
 				}
 				loc := ""
-				if g.definedOutside(li, x.Addr) {
-					loc = g.val(x.Addr).T
+				if hv, ok := g.headEval(li, st, x.Addr); ok && pass == 2 {
+					loc = hv.T
 				}
 				cells(x.Val.Type(), loc, func(k, l string) {
 					kinds[k] = true
@@ -629,7 +689,12 @@ func (g *Gen) scanLoop(li *loopInfo, st *State) {
 				li.allocs = true
 				g.mapKinds(x.(ssa.Value).Type(), func(k string) { kinds[k] = true })
 			case *ssa.MapUpdate:
-				g.mapKinds(x.Map.Type(), func(k string) { kinds[k] = true })
+				g.mapKinds(x.Map.Type(), func(k string) {
+					kinds[k] = true
+					if hv, ok := g.headEval(li, st, x.Map); ok && pass == 2 {
+						addLoc(k, hv.T)
+					}
+				})
 			case *ssa.Convert:
 				if isByteSlice(x.Type()) && isString(x.X.Type()) {
 					li.allocs = true
@@ -691,39 +756,42 @@ func (g *Gen) scanCall(li *loopInfo, st *State, ins ssa.CallInstruction, kinds m
 		li.allocs = true
 	}
 	// translate modifies items with the actuals, in the pre-loop state, if loop invariant
-	outside := true
-	for _, a := range ci.args {
-		if !g.definedOutside(li, a) {
-			outside = false
-		}
-	}
 	vars := map[string]Val{}
-	if outside {
-		for i, n := range ci.formals {
-			if i < len(ci.args) {
-				vars[n] = g.val(ci.args[i])
-			}
+	for i, a := range ci.args {
+		if hv, ok := g.headEval(li, st, a); ok && i < len(ci.formals) {
+			vars[ci.formals[i]] = hv
 		}
-	}
-	if len(ci.con.ModEach) > 0 {
-		li.allHav = true // conservative: quantified footprints inside loops are not tracked
 	}
 	for _, m := range ci.con.Modifies {
-		k, loc, win := g.modItem(ci, m, vars, st, outside)
+		// try to evaluate the item at the loop head with the loop-invariant actuals only;
+		// if it mentions an actual that varies in the loop, only its kinds are recorded.
+		k, loc, win, ok := g.tryModItem(ci, m, vars, st)
+		if !ok {
+			k, _, _ = g.modItem(ci, m, nil, st, false)
+			loc, win = nil, nil
+		}
 		for _, kk := range k {
 			kinds[kk] = true
 		}
-		if outside && loc != nil {
-			for i, kk := range k {
-				if loc[i] != "" {
-					addLoc(kk, loc[i])
-				}
+		for i, kk := range k {
+			if loc != nil && loc[i] != "" {
+				addLoc(kk, loc[i])
 			}
 		}
-		if outside && win != nil {
+		if win != nil {
 			li.sWins = append(li.sWins, *win)
 		}
 	}
+}
+
+func (g *Gen) tryModItem(ci *callInfo, m *Expr, vars map[string]Val, st *State) (k []string, loc []string, win *window, ok bool) {
+	defer func() {
+		if r := recover(); r != nil {
+			ok = false
+		}
+	}()
+	k, loc, win = g.modItem(ci, m, vars, st, true)
+	return k, loc, win, true
 }
 
 func (g *Gen) cellKinds(t types.Type, f func(k string)) {
